@@ -903,8 +903,12 @@ pub fn run(ctx: &mut Ctx) {
             "C05" | "C10" => *rng.pick(&[Mix::Arena, Mix::Arena, Mix::CloneTake, Mix::Placeholders]),
             _ => *rng.pick(&[Mix::Pipe, Mix::Pipe, Mix::Placeholders, Mix::CloneTake, Mix::Arena]),
         };
-        let n = rng.range(1, max_ops);
-        let small_case = small || rng.chance(1, 3);
+        // One history in 100 is long (thousands of operations): accumulated
+        // state — arena chunk sizes grown to their 1 MiB maximum, many
+        // clear / take / reuse cycles, long anchor queues.
+        let long = !miri && !small && rng.chance(1, 100);
+        let n = if long { rng.range(1500, 4000) } else { rng.range(1, max_ops) };
+        let small_case = !long && (small || rng.chance(1, 3));
         let steps = gen_history(&mut rng, n, mixk, small_case);
         let drop_seed = rng.next_u64();
         ctx.begin_case(idx, || case_json(idx, mixk, &steps, drop_seed));
@@ -944,6 +948,12 @@ pub fn run(ctx: &mut Ctx) {
                 ctx.feature_n("iovec.exposed_slices_checked", rs.expose.slices_checked);
                 ctx.feature_n("iovec.exposed_slices_in_arena", rs.expose.arena_slices);
                 ctx.feature("iovec.drop_accounting_checked");
+                if steps.len() > 1400 {
+                    ctx.feature("iovec.long_histories");
+                }
+                if rs.max_live >= (1 << 20) {
+                    ctx.feature("iovec.histories_reaching_1MiB_of_live_arena");
+                }
                 ctx.maximum("iovec.max_pending_placeholders", rs.max_pending as u64);
                 ctx.maximum("iovec.max_live_arena_bytes", rs.max_live as u64);
                 ctx.signature(mix(&[
